@@ -7,8 +7,11 @@ worlds; ids are only used inside one world, while the objects are alive, to dete
 """
 from __future__ import annotations
 
+import collections
+import collections.abc
 import inspect
 import re
+import types
 
 import attr
 import attrs
@@ -547,6 +550,27 @@ def decode_cells(fn, args_init):
     return out
 
 
+class UserMapping(collections.abc.Mapping):
+    """a user's own read-only Mapping over a dict the user keeps (and may edit later)"""
+
+    def __init__(self, d):
+        self._d = d
+
+    def __getitem__(self, k):
+        return self._d[k]
+
+    def __iter__(self):
+        return iter(self._d)
+
+    def __len__(self):
+        return len(self._d)
+
+
+KINDS = {"M": ["dict", "proxy", "odict", "mapping"], "L": ["list", "tuple", "obj"], "Cs": ["list", "tuple", "obj"],
+         "H": ["list", "tuple", "obj"], "these": ["dict", "odict"], "mk": ["dict", "odict"], "mkNames": ["list", "tuple"],
+         "body": ["dict", "odict"]}
+
+
 # ------------------------------------------------------------------ the world
 class World:
     def __init__(self, case, tag="", fp_bases=True):
@@ -560,10 +584,14 @@ class World:
         self.allowed = {}                        # id(class) -> (class, {owner: label})
         self.cur_owner = self.shared
         self.cur_variant = 0
-        self.L = [mk_val(self.shared, f"L{i}") for i in range(case["valLen"])]
-        self.Cs = [mk_conv(self.shared, f"C{i}") for i in range(case["convLen"])]
-        self.H = [mk_list_hook(self.shared, i) for i in range(case["hookLen"])]
-        self.M = {f"k{i}": i for i in range(case["metaSize"])}
+        # harness-only: the KIND of every shared argument container (the model only counts their members)
+        self.kinds = {k: v[0] for k, v in KINDS.items()}
+        self.kinds.update(case.get("kinds") or {})
+        self.L_items = [mk_val(self.shared, f"L{i}") for i in range(case["valLen"])]
+        self.Cs_items = [mk_conv(self.shared, f"C{i}") for i in range(case["convLen"])]
+        self.H_items = [mk_list_hook(self.shared, i) for i in range(case["hookLen"])]
+        self.M_items = self._dictlike("M", {f"k{i}": i for i in range(case["metaSize"])})   # what the user keeps and edits
+        self._rebuild()
         S = self.shared
         # user OBJECTS that several classes may use, under any field name (owner: shared arguments)
         self.pool = {
@@ -579,12 +607,14 @@ class World:
             "reprFn": [mk_repr(S, "PR0", 0), mk_repr(S, "PR1", 1)],
         }
         self.cas = [self._ca_from_state(s, f"ca{j}") for j, s in enumerate(case["cas"])]
-        self.these = {f["name"]: self._inline(f, "t") for f in case["these"]}
-        self.mk_dict = {f["name"]: self._inline(f, "m") for f in case["mkFields"]}
+        self.these = self._dictlike("these", {f["name"]: self._inline(f, "t") for f in case["these"]})
+        self.mk_dict = self._dictlike("mk", {f["name"]: self._inline(f, "m") for f in case["mkFields"]})
         for k in case["mkHooks"]:
             self.mk_dict[k] = {"__attrs_pre_init__": pre_init, "__attrs_post_init__": post_init, "__init__": own_init}[k]
         self.mk_names = [f["name"] for f in case["mkFields"]]
-        self.mk_body = self._own_ns(case["mkBody"])
+        if self.kinds["mkNames"] == "tuple":
+            self.mk_names = tuple(self.mk_names)
+        self.mk_body = self._dictlike("body", self._own_ns(case["mkBody"]))
         self.mk_bases = {}
         self.hook_lists = []
         self.decos = [self._deco(a) for a in case["decos"]]
@@ -598,6 +628,31 @@ class World:
                     self.mk_bases[k] = (self.base(k),)
             elif isinstance(st, dict) and "defDeco" in st:
                 self.base(st["defDeco"]["c"]["base"])
+
+    # --- shared argument containers of the chosen kinds
+    def _dictlike(self, which, d):
+        return collections.OrderedDict(d) if self.kinds[which] == "odict" else d
+
+    def _rebuild(self):
+        """(re)create the container objects the user passes to attr.ib from what the user keeps.  A list is kept and
+        mutated in place; a tuple or a prebuilt and_/pipe object is immutable, so an append makes a new one; a
+        MappingProxyType / Mapping is a live view of the dict the user keeps."""
+        k = self.kinds
+        if not (k["L"] == "list" and hasattr(self, "L")):
+            self.L = (self.L_items if k["L"] == "list" else tuple(self.L_items) if k["L"] == "tuple"
+                      else attr.validators.and_(*self.L_items))
+        if not (k["Cs"] == "list" and hasattr(self, "Cs")):
+            self.Cs = (self.Cs_items if k["Cs"] == "list" else tuple(self.Cs_items) if k["Cs"] == "tuple"
+                       else attr.converters.pipe(*self.Cs_items))
+        if not (k["H"] == "list" and hasattr(self, "H")):
+            self.H = (self.H_items if k["H"] == "list" else tuple(self.H_items) if k["H"] == "tuple"
+                      else setters.pipe(*self.H_items))
+        if not hasattr(self, "M"):
+            self.M = (types.MappingProxyType(self.M_items) if k["M"] == "proxy"
+                      else UserMapping(self.M_items) if k["M"] == "mapping" else self.M_items)
+
+    def sizes(self):
+        return [len(self.L_items), len(self.Cs_items), len(self.H_items), len(self.M_items)]
 
     # --- counting attrs
     def _ib(self, default, nvalid, convf, hook, kw_only, meta_n, tok, api="ib", fx=None):
@@ -854,13 +909,20 @@ class World:
             elif isinstance(step, dict) and "caDefault" in step:
                 self.cas[step["caDefault"]["j"]].default(_DEFAULT_METH)
             elif step == "valAppend":
-                self.L.append(mk_val(self.shared, f"L{len(self.L)}"))
+                self.L_items.append(mk_val(self.shared, f"L{len(self.L_items)}"))
+                self._rebuild()
             elif step == "convAppend":
-                self.Cs.append(mk_conv(self.shared, f"C{len(self.Cs)}"))
+                self.Cs_items.append(mk_conv(self.shared, f"C{len(self.Cs_items)}"))
+                self._rebuild()
             elif step == "hookAppend":
-                self.H.append(mk_list_hook(self.shared, len(self.H)))
+                self.H_items.append(mk_list_hook(self.shared, len(self.H_items)))
+                self._rebuild()
             elif step == "metaSet":
-                self.M[f"k{len(self.M)}"] = len(self.M)
+                # the user edits the dict they keep: a new key, and every old key gets another value
+                n = len(self.M_items)
+                for key in list(self.M_items):
+                    self.M_items[key] = f"edited{n}"
+                self.M_items[f"k{n}"] = n
             else:
                 raise ValueError(step)
         except BaseException as e:  # noqa: BLE001
@@ -884,8 +946,10 @@ class World:
             (id(self.mk_body), tuple((k, id(v)) for k, v in self.mk_body.items())),
             tuple((k, id(t), tuple(id(b) for b in t)) for k, t in sorted(self.mk_bases.items())),
             tuple(self._ca_snap(c) for c in self.cas),
-            (id(self.L), tuple(id(v) for v in self.L)), (id(self.Cs), tuple(id(v) for v in self.Cs)),
-            (id(self.H), tuple(id(v) for v in self.H)), (id(self.M), tuple((k, id(v)) for k, v in self.M.items())),
+            (id(self.L), tuple(id(v) for v in self.L_items), vstruct(self.L)),
+            (id(self.Cs), tuple(id(v) for v in self.Cs_items), cstruct(self.Cs)),
+            (id(self.H), tuple(id(v) for v in self.H_items), hstruct(self.H)),
+            (id(self.M), id(self.M_items), tuple((k, id(v)) for k, v in self.M_items.items()), tuple(self.M)),
             tuple((id(h), tuple(id(v) for v in h)) for h in self.hook_lists),
             tuple((id(c), id(c.converter), c.takes_self, c.takes_field) for c in self.pool["conv"]),
             tuple((id(f), id(f.factory), f.takes_self) for f in self.pool["factory"]),
